@@ -15,7 +15,7 @@ KINDS = [(v6, l4) for v6 in (False, True) for l4 in ("tcp", "udp", "other")] + [
 @harness(["C07", "C12", "C04", "C11", "C05", "C01"], "packet.init", functions=[PK + ".__init__"], cases=KINDS)
 def h_packet_init(c, ipv6, l4):
     if c.native:
-        return
+        return h_packet_init_native(c, ipv6, l4)
     buf = c.bytes("frame_bytes", min_len=14)
     ts = c.opaque("capture_timestamp") if c.nondet("timestamp_is_an_opaque_number") else c.int("capture_timestamp_ticks", 0, 2 ** 62)
     esrc, edst = c.bytes("eth_src", length=6), c.bytes("eth_dst", length=6)
@@ -102,3 +102,62 @@ def h_packet_init(c, ipv6, l4):
 
 
 h_packet_init.must_cover = ["built"]
+
+
+def h_packet_init_native(c, ipv6, l4):
+    """native evaluation: the frame is packed by hand from the same named values (so that checksum fields, flags and the payload are
+    exactly the chosen ones - dpkt's own serialiser would repair zero checksums), decoded by the REAL dpkt, wrapped by the real Packet"""
+    import struct
+    if l4 == "non_ip":
+        return
+    ts = float(c.int("capture_timestamp_ticks", 0, 2 ** 40)) / 1e6
+    esrc, edst = c.bytes("eth_src", length=6), c.bytes("eth_dst", length=6)
+    alen = 16 if ipv6 else 4
+    isrc, idst = c.bytes("ip_src", length=alen), c.bytes("ip_dst", length=alen)
+    sport, dport = c.int("sport", 0, 65535), c.int("dport", 0, 65535)
+    seq, ack = c.int("seq", 0, 2 ** 32 - 1), c.int("ack", 0, 2 ** 32 - 1)
+    payload = c.bytes("transport_payload", max_len=40)
+    l4sum = None
+    if l4 == "tcp":
+        l4sum, flags = c.int("tcp_sum", 0, 65535), c.int("tcp_flags", 0, 255)
+        seg = struct.pack(">HHIIBBHHH", sport, dport, seq, ack, 5 << 4, flags, c.int("tcp_win", 0, 65535), l4sum, c.int("tcp_urp", 0, 65535)) + payload
+        proto = 6
+    elif l4 == "udp":
+        l4sum = c.int("udp_sum", 0, 65535)
+        seg = struct.pack(">HHHH", sport, dport, 8 + len(payload), l4sum) + payload
+        proto = 17
+    else:
+        seg = struct.pack(">BBH", 8, 0, c.int("icmp_sum", 0, 65535)) + b"\x00\x00\x00\x00" + payload
+        proto = 58 if ipv6 else 1
+    ipsum = None
+    if ipv6:
+        net = struct.pack(">IHBB", 6 << 28, len(seg), proto, 64) + isrc + idst + seg
+        etype = 0x86DD
+    else:
+        ipsum = c.int("ip_sum", 0, 65535)
+        net = struct.pack(">BBHHHBBH", 0x45, 0, 20 + len(seg), c.int("ip_id", 0, 65535), 0, 64, proto, ipsum) + isrc + idst + seg
+        etype = 0x0800
+    buf = edst + esrc + struct.pack(">H", etype) + net
+    out = c.new(PK, buf, ts)
+    c.ensure("no_raise", out.exc is None, kind="raises")
+    if out.exc is not None:
+        return
+    p = out.value
+    c.ensure("capture_timestamp_kept_as_handed_in", p.timestamp is ts)
+    c.ensure("frame_bytes_kept", p.binary is buf)
+    c.ensure("ip_version_flag", p.ipv6_packet is bool(ipv6))
+    c.ensure("endpoints.macs_in_direction", bytes(p.ethernet_src) == esrc and bytes(p.ethernet_dst) == edst)
+    c.ensure("endpoints.addresses_in_direction", bytes(p.ip_src) == isrc and bytes(p.ip_dst) == idst)
+    if l4 == "tcp":
+        c.ensure("tcp.flags", p.tcp_packet is True and p.udp_packet is False)
+        c.ensure("tcp.ports_in_direction", p.sport == sport and p.dport == dport)
+        c.ensure("tcp.sequence_numbers", p.seq == seq and p.ack == ack)
+        c.ensure("tcp.payload_and_segment_object", bytes(p.tls_data) == payload)
+        c.ensure("decoders_checksum_fields_untouched", p.tcp.sum == l4sum and (ipsum is None or p.ip.sum == ipsum))
+    elif l4 == "udp":
+        c.ensure("udp.flags", p.tcp_packet is False and p.udp_packet is True)
+        c.ensure("udp.ports_in_direction", p.sport == sport and p.dport == dport)
+        c.ensure("udp.payload_and_datagram_object", bytes(p.tls_data) == payload)
+        c.ensure("decoders_checksum_fields_untouched", p.udp.sum == l4sum and (ipsum is None or p.ip.sum == ipsum))
+    else:
+        c.ensure("other.flagged_as_neither", p.tcp_packet is False and p.udp_packet is False)
